@@ -65,6 +65,18 @@ def main():
                 else:
                     m["miri_unpatched"] = m0.stdout[-400:]
                     m["miri_patched"] = m1.stdout[-400:]
+                    # a fault that exists with the portable-atomic feature set only
+                    cmd = "cargo +nightly miri test --offline --features extra-platforms --test demo_seeded 2>&1"
+                    subprocess.run("patch -s -R -p1 --no-backup-if-mismatch < %s" % os.path.join(os.path.abspath(src), "patch.diff"), cwd=base, shell=True)
+                    m0 = subprocess.run(cmd, cwd=base, shell=True, capture_output=True, text=True, env=menv)
+                    subprocess.run("patch -s -p1 --no-backup-if-mismatch < %s" % os.path.join(os.path.abspath(src), "patch.diff"), cwd=base, shell=True)
+                    m1 = subprocess.run(cmd, cwd=base, shell=True, capture_output=True, text=True, env=menv)
+                    ok0 = m0.returncode == 0 and "Undefined Behavior" not in m0.stdout
+                    bad1 = m1.returncode != 0 and (("Undefined Behavior" in m1.stdout) or ("data race" in m1.stdout.lower()) or ("FAILED" in m1.stdout) or ("panicked" in m1.stdout))
+                    if ok0 and bad1:
+                        note = ("the demonstration fails only under Miri with --features extra-platforms: MIRIFLAGS=%s cargo +nightly miri test --features extra-platforms "
+                                "--test demo_seeded passes without the patch and reports an error with it; see notes.md" % menv["MIRIFLAGS"])
+                        m["ran"].append("cargo +nightly miri test --offline --features extra-platforms --test demo_seeded (unpatched: ok; patched: error reported)")
         finally:
             shutil.rmtree(tmp, ignore_errors=True)
     confirmed = {k: m.get(k) for k in ("patch_applies", "suite_passes_with_patch", "demo_passes_without_patch", "demo_fails_with_patch",
